@@ -167,7 +167,7 @@ template <class T, int N> inline bool sparsity_proj (bool pm, HomogClasses& hcsu
         }
         t.flush ();
         std::lock_guard<std::mutex> g (mu);
-        hcsum.affine += hc.affine; hcsum.projective += hc.projective; hcsum.inexact += hc.inexact; hcsum.wzero += hc.wzero;
+        hcsum.affine += hc.affine; hcsum.projective += hc.projective; hcsum.inexact += hc.inexact; hcsum.wzero += hc.wzero; hcsum.npot += hc.npot;
     });
     Tally t;
     for (uint64_t idx = 0; idx < ex::ipow (3, N - 1); ++idx)
@@ -183,11 +183,14 @@ template <class T, int N> inline bool sparsity_proj (bool pm, HomogClasses& hcsu
 
 // ---- homogeneous divide ---------------------------------------------------------------------------
 // first N-1 columns from 6 fixed generators (dense signed small primes; two of them sparse), last
-// column (0,..,0,1) or {-1,0,1,2}^(N-1) x {1,-1,2,-2,4}; source vector L(2)^(N-1)
+// column (0,..,0,1) or {-1,0,1,2}^(N-1) x {+-1,+-2,+-4,8,+-3,5}; source vector L(3)^2 (N=3) / L(2)^3 (N=4)
 template <class T, int N> inline void homog_dim (Tally& t, HomogClasses& hc)
 {
-    static const int W[5] = {1, -1, 2, -2, 4};
-    const uint64_t   nlc  = ex::ipow (4, N - 1) * 5 + 1;
+    // w values: +-powers of two (quotients exact) and odd primes (quotients really rounded)
+    static const int W[10] = {1, -1, 2, -2, 4, -4, 8, 3, -3, 5};
+    const int        NW   = 10;
+    const uint64_t   nlc  = ex::ipow (4, N - 1) * NW + 1;
+    const unsigned   vb   = N == 3 ? 7 : 5; // source lattice L(3)^2 for Vec2 x M33, L(2)^3 for Vec3 x M44
     for (int g = 0; g < 6; ++g)
     {
         int m[N * N];
@@ -206,14 +209,14 @@ template <class T, int N> inline void homog_dim (Tally& t, HomogClasses& hc)
             else
             {
                 int d[N - 1];
-                ex::decode ((lc - 1) / 5, 4, N - 1, d, -1);
+                ex::decode ((lc - 1) / NW, 4, N - 1, d, -1);
                 for (int k = 0; k < N - 1; ++k) m[k * N + N - 1] = d[k];
-                m[N * N - 1] = W[(lc - 1) % 5];
+                m[N * N - 1] = W[(lc - 1) % NW];
             }
-            for (uint64_t vi = 0; vi < ex::ipow (5, N - 1); ++vi)
+            for (uint64_t vi = 0; vi < ex::ipow (vb, N - 1); ++vi)
             {
                 int v[N - 1];
-                ex::decode (vi, 5, N - 1, v, -2);
+                ex::decode (vi, vb, N - 1, v, -(int) (vb / 2));
                 check_homog<T, N> (v, m, t, hc);
                 check_dir<T, N> (v, m, t);
             }
@@ -301,6 +304,7 @@ template <class T> void run_exact ()
                     check_transpose_trace<T, 4> (a, mk<T, 4> (a), t);
                 }
         t.flush ();
+        R ().cls ("quat.4d-dot(operator^,euclideanInnerProduct)-vs-sum-of-products", quatdot_count ().exchange (0));
         R ().add ("homog_w_zero_skipped", hc.wzero - wz0);
         R ().stage_done ("576 dense operand pairs of distinct signed primes (36 rotations x 4 x 4 sign patterns), every product in every dimension");
     }
@@ -328,12 +332,13 @@ template <class T> void run_exact ()
         homog_dim<T, 3> (t, hc);
         homog_dim<T, 4> (t, hc);
         t.flush ();
-        R ().stage_done ("Vec2 x M33 and Vec3 x M44 (operator*, operator*=, multVecMatrix, multDirMatrix): 6 generators x last column {(0,..,0,1)} + {-1,0,1,2}^(n-1) x {+-1,+-2,4} x source L(2)^(n-1)");
+        R ().stage_done ("Vec2 x M33 and Vec3 x M44 (operator*, operator*=, multVecMatrix, multDirMatrix): 6 generators x last column {(0,..,0,1)} + {-1,0,1,2}^(n-1) x {+-1,+-2,+-4,8,+-3,5} x source L(3)^2 resp. L(2)^3");
     }
     if (hc.affine + hc.projective + hc.wzero == 0) return; // no homogeneous stage ran (stage filter)
     R ().cls ("homog.affine-last-column(w=1)", hc.affine);
     R ().cls ("homog.projective-last-column", hc.projective);
     R ().cls ("homog.inexact-quotient(rounded once)", hc.inexact);
+    R ().cls ("homog.w-not-power-of-two(quotient really rounded)", hc.npot);
     R ().add ("homog_w_zero_skipped_total", hc.wzero);
 }
 
